@@ -554,7 +554,7 @@ func (e *Env) RDecorateForeignDecl() {
 		}
 		return true
 	})
-	e.Run.Floor("R-EXTRAS", "conversions of declaring nodes in decorateObject", n, 2)
+	e.Run.Analysed("R-EXTRAS conversions of declaring nodes in decorateObject", n)
 }
 
 // RNilFirst (R-OBJ): the four object/scope converters return nil for a nil argument before they
